@@ -137,9 +137,11 @@ def _add_drs_profile(ch: Chooser, plan: dict[str, Any]) -> None:
                       {'plural': 'replicasets', 'group': 'apps', 'version': 'v1', 'kind': 'ReplicaSet'}]
     op1 = plan['operators'][0]
     for kind in ('deployments', 'replicasets'):
-        op1['handlers'].append({'id': f'mk-{kind[:3]}', 'kind': 'create', 'resource': kind, 'opts': {},
+        # ids around the length at which the mark of an owned ReplicaSet (6 more characters) pushes the name over the limit
+        pad = ''.join(ch.choice(ALPHABET[:62]) for _ in range(ch.choice([0, 0, 50, 51, 52, 54, 57, 58, 94])))
+        op1['handlers'].append({'id': f'mk-{kind[:3]}{pad}', 'kind': 'create', 'resource': kind, 'opts': {},
                                 'script': [{'do': 'temp', 'dur': 0.0, 'delay': 0.5}, {'do': 'ok', 'dur': 0.0}]})
-        op1['handlers'].append({'id': f'up-{kind[:3]}', 'kind': 'update', 'resource': kind, 'opts': {},
+        op1['handlers'].append({'id': f'up-{kind[:3]}{pad}', 'kind': 'update', 'resource': kind, 'opts': {},
                                 'script': [{'do': 'ok', 'dur': 0.0}]})
     dep = {'kind': 'deployments', 'body': {'metadata': {'name': 'dep', 'annotations': {'user.example.com/keep': 'me'}},
                                            'spec': {'replicas': 1, 'strategy': {'type': 'RollingUpdate'}}}}
@@ -327,7 +329,12 @@ def oracle(run: runner.Run, oc: Outcome) -> None:
                 for key in aa:
                     if not _own_annotation(st1, key) or ab.get(key) == aa.get(key) or key.endswith('/kopf-managed'):
                         continue
-                    if key.endswith('-ofDRS') != marked:
+                    # (names that had to be cut carry the mark inside their hash, not at their end: the mark is
+                    # visible -- and judged -- on names that were kept whole)
+                    whole = len(key.split('/', 1)[-1]) < 57
+                    if whole and not any(len(h_['id']) > 40 for h_ in plan['operators'][0]['handlers']
+                                         if h_.get('resource') in ('deployments', 'replicasets')) \
+                            and key.endswith('-ofDRS') != marked:
                         oc.add('C16/isolation', 'owned-replicaset-key-' + ('not-marked' if marked else 'marked-on-a-deployment'),
                                f"op1 wrote {key!r} on the {kind[:-1]} {t.name}: records of a ReplicaSet owned by a Deployment "
                                f"must carry the -ofDRS mark, and only they", uid=t.uid)
